@@ -168,7 +168,7 @@ func init() {
 		Assumptions: []string{"same RFC 6902 root-replacement reading as C09 (DESIGN 5.9)", "merge-mode documents are null-free and differ"},
 	}
 	numKeys := gen.PHostile.With(func(p *gen.Profile) { p.Keys = append(append([]string{}, gen.KeysHostile...), "0", "1", "2", "12", "01", "-1", "+1", "1e3") })
-	profs := []gen.Profile{gen.PDefault, gen.PTiny, gen.PDeep, gen.PNulls, gen.PHostile, numKeys}
+	profs := []gen.Profile{gen.PDefault, gen.PTiny, gen.PDeep, gen.PNulls, gen.PHostile, numKeys, gen.PNumbers}
 	p.Strata = append(p.Strata, mon.Stratum{
 		Name: "patch/random-pairs",
 		N:    qt(40000, 6000000),
